@@ -81,11 +81,10 @@ class StrategyTable:
         self.inputs = inputs
         self.name = 'S-' + mode
 
-    def cls(self, v, down=None):
-        if down is not None:
-            c = self.classes.get(down + '\x01' + v)
-            if c is not None:
-                return c
+    def cls(self, v, key=None):
+        if key is not None:
+            from .sym import concrete_class
+            return concrete_class(self.classes, key, v)
         return self.classes.get(v, v)
 
     def output_already_present(self, query):
@@ -100,8 +99,8 @@ class StrategyTable:
         if self.mode == 'ident':
             return a != b
         if self.mode in ('rel', 'reld'):
-            d = rt.D(down)
-            return self.cls(a, d) != self.cls(b, d)
+            key = rt.D(up) + '\x02' + rt.D(down)
+            return self.cls(a, key) != self.cls(b, key)
         if a == b:
             return False
         return self.cls(a) != self.cls(b)
